@@ -926,6 +926,31 @@ func runC20(c Case, m *Model) (v Verdict) {
 		}
 	}
 	x := expectSeq(s)
+	// one song object exported repeatedly and in both orders gives what fresh songs give
+	if x.inDomain && impl[0] != "panic" && impl[1] != "panic" {
+		var seq [4]string
+		if p := try(func() {
+			so := s.build()
+			a := so.ToSMF0()
+			seq[0] = showSMF(&a)
+			b := so.ToSMF1()
+			seq[1] = showSMF(&b)
+			a2 := so.ToSMF0()
+			seq[2] = showSMF(&a2)
+			b2 := so.ToSMF1()
+			seq[3] = showSMF(&b2)
+		}); p != "" {
+			v.Oracle = append(v.Oracle, "exporting one song object repeatedly panicked: "+p)
+		} else {
+			for k, want := range []string{impl[0], impl[1], impl[0], impl[1]} {
+				if seq[k] != want {
+					v.Oracle = append(v.Oracle, fmt.Sprintf("export %d of one song object (ToSMF0, ToSMF1, ToSMF0, ToSMF1) differs from the export of a fresh song: %s vs %s", k, short(seq[k]), short(want)))
+					break
+				}
+			}
+		}
+		v.Tags = append(v.Tags, "song-exported-repeatedly")
+	}
 	// bar starts (Bar.AbsTicks after an export): every bar starts where the previous one ends
 	for i := 0; i < 2; i++ {
 		if impl[i] == "panic" {
